@@ -34,7 +34,7 @@ def emit(sc):
     if sc.get("emit_tape"):
         lines.append("emit_tape")
     if sc.get("instr"):
-        lines.append("instr %d" % sc["instr"])
+        lines.append("instr %d" % sc["instr"] + (" target=%d" % sc["instr_target"] if sc.get("instr_target") else "") + (" cap=%d" % sc["instr_cap"] if sc.get("instr_cap") else ""))
     if sc.get("maxsteps"):
         lines.append("maxsteps %d" % sc["maxsteps"])
     return "\n".join(lines) + "\n"
@@ -239,6 +239,14 @@ def check_push(h):
             end_wall = sc["end"]
             for s in accepted.values():
                 if s["v"] not in pos and s.get("wall_ret", 10 ** 18) < end_wall - 1000:
+                    if sc.get("instr"):
+                        # instrumented runs: every extra scheduler step advances the clock, so the engine is slow relative
+                        # to the wall clock and may legitimately run out of window. The value counts as stalled only if the
+                        # engine went through at least 3 further cycles after the send returned without this source
+                        # delivering anything (or sat in a forced time-out: the clause below)
+                        later = [t for (i, t) in h.cycles if i > s["ret"]]
+                        if len(later) < 3 or any(e["k"] == "dlv" and e["id"] == p["id"] for e in h.events[s["ret"]:]):
+                            continue
                     return ("accepted_not_delivered", "value %d was accepted at wall %s, no stop was requested and the run lasted until %d, but it was never delivered" % (s["v"], s.get("wall_ret"), end_wall)), stats
         for (idx, th, kind, wall) in h.forced:
             if th != 0 or kind != "cond":
@@ -380,8 +388,9 @@ def check_realtime(h):
         if r["alarm"] and T <= max(r["t"], r["wall"]) + (0 if r["in_start"] else 0):
             stats["probe_alarm_already_due"] += 1
         if r["id"] in fuzzy and r["alarm"]:
-            if stop_inv is None and T < sc["end"] - 200 and not any(T <= x <= T + 200 for x in evs.get(r["id"], {})):
-                return ("wakeup_dropped", "timer %d asked for a wall-clock alarm near %d; no evaluation within 200 us of it (evaluations: %s)" % (
+            # (no upper bound: the many extra steps of an instrumented run also multiply the injected clock stalls)
+            if stop_inv is None and T < sc["end"] - 2000 and not any(x >= T for x in evs.get(r["id"], {})) and run_ret_wall >= sc["end"] and not h.faulty:
+                return ("wakeup_dropped", "timer %d asked for a wall-clock alarm near %d; it was never evaluated afterwards (evaluations: %s)" % (
                     r["id"], T, sorted(evs.get(r["id"], {}))[:12])), stats
             continue
         if T < sc["start"] or T >= sc["end"]:
@@ -405,7 +414,8 @@ def check_realtime(h):
             if T not in asked:
                 return ("unrequested_evaluation", "timer %d evaluated at %d; requested times were %s" % (tid, T, sorted(asked)[:12])), stats
     # punctuality when nothing makes the graph lag
-    if not h.faulty and not any(p for p in sc["pushes"]):
+    # (not in instrumented runs: every extra scheduler step costs simulated wall time, the engine lags by construction)
+    if not h.faulty and not any(p for p in sc["pushes"]) and not sc.get("instr"):
         # only timers that were still in the future of the wall clock when they were requested (a window that starts in
         # the past, or an already-due alarm, is late by construction and catches up cycle by cycle)
         future = {(r["id"], r["when"]) for r in reqs if r["when"] is not None and r["when"] >= r["wall"] + 100}
@@ -420,7 +430,8 @@ def check_realtime(h):
         if len(later) > 1:
             return ("ran_on_after_stop", "%d cycles began after request_stop had returned (at most the cycle in progress may finish): %s" % (len(later), later[:5])), stats
         steps = h.run_res["seq"] - h.stops[0].get("seq_ret", h.run_res["seq"])
-        if steps > 400:
+        # (instrumented runs have many more scheduler steps per unit of engine work: every extra pre-emption point is one)
+        if steps > (4000 if sc.get("instr") else 400):
             return ("stop_not_prompt", "run() returned %d scheduler steps after request_stop returned" % steps), stats
         stats["probe_stop_while_waiting"] += 1
     else:
